@@ -1593,6 +1593,11 @@ PyObject* Records::Write(PyObject* obj)
 		WriteRows();
 	}
 
+	// make the rows visible to other readers of the file: the row count in
+	// the header of an sfile was already updated (and flushed by the seeks in
+	// update_row_count), it must not be ahead of the rows on disk
+	fflush(mFptr);
+
 	if (mDebug) debugout("Finished writing");
 	return(ret);
 }
